@@ -43,6 +43,8 @@ def templates(tier, seed=0):
         ts.append({'name': 'mb-split-law-%d' % i, 'src': 's := "%s"\nk := @h0@\nprint((s[:k] + s[k:]) == s)\nprint(s[:k]->len())\nprint(s->len())\n' % s})
         ts.append({'name': 'mb-index-eq-%d' % i, 'src': 's := "%s"\nprint(s[@h0@] == s[@h1@])\nprint((s[@h0@:@h1@] + s[@h1@:]) == s[@h0@:])\n' % s})
         ts.append({'name': 'mb-for-%d' % i, 'src': 's := "%s"\nn := 0\nfor [i, c] in s {\n    n += 1\n    print(c == s[i])\n}\nprint(n)\n' % s})
+    # byte pieces of different characters: equal exactly when their bytes are; pieces used as slot values / keys / accumulated
+    ts.append({'name': 'mb-byte-pieces', 'src': 's := "\u00e9\u00e8\u20ac"\nprint(s[1] == s[3])\nprint(s[0] == s[2])\nprint(s[1:2] != s[3:4])\nprint([s[1]] == [s[3]])\nprint({"k": s[4:6]} == {"k": s[4:5] + s[5:6]})\nacc := ""\nfor [i, c] in s {\n    acc += c\n}\nprint(acc == s)\nprint(acc->len())\nk := @h2@\nu := s[:k]\nif @b0@ {\n    print($"<${u}>" == "<" + u + ">")\n}\nif @b1@ {\n    o := {}\n    o[u] = 1\n    print(o[u])\n}\nprint(1)\n'})
     # range assignment from a string with multi-byte characters: one element per byte
     for i, s in enumerate(MB):
         ts.append({'name': 'mb-range-assign-%d' % i, 'src': 's := "%s"\nxs := [1, 2, 3, 4, 5, 6]\nxs[@h0@:@h1@] = s\nn := 0\nfor [j, v] in xs {\n    n += 1\n}\nprint(n)\na := @h0@\nfor [j, c] in s {\n    print(xs[a + j] == c)\n}\nprint(xs[0])\n' % s})
